@@ -43,11 +43,24 @@ type law struct {
 	expr string // jq: to_F | from_F | tovalue
 }
 
+// every number n becomes the same number computed through the neighbouring big integer:
+// n < 0: -((-(n+1))+1)  (for -2^63: -(2^63) is a *big.Int that fits an int);  n >= 0: n+1-1
+const reprArith = `walk(if type == "number" then (if . < 0 then -((-(. + 1)) + 1) else . + 1 - 1 end) end)`
+
 var laws = map[string]law{
-	"yaml":   {"yaml", "to_yaml | from_yaml | tovalue"},
-	"toml":   {"toml", "to_toml | from_toml | tovalue"},
-	"xml":    {"xml", "to_xml | from_xml({array: true}) | tovalue"},
-	"xmlobj": {"xmlobj", "to_xml | from_xml | tovalue"},
+	"yaml": {"yaml", "to_yaml | from_yaml | tovalue"},
+	"toml": {"toml", "to_toml | from_toml | tovalue"},
+	// the same with every number re-created inside jq so that it is held as a big integer even when
+	// it fits an int — by arithmetic (reprArith) and as a jq literal (to_jq | from_jq: unary minus
+	// of a big literal, e.g. -9223372036854775808)
+	"yaml_arith":  {"yaml_arith", reprArith + " | to_yaml | from_yaml | tovalue"},
+	"toml_arith":  {"toml_arith", reprArith + " | to_toml | from_toml | tovalue"},
+	"yaml_lit":    {"yaml_lit", "to_jq | from_jq | to_yaml | from_yaml | tovalue"},
+	"toml_lit":    {"toml_lit", "to_jq | from_jq | to_toml | from_toml | tovalue"},
+	"json_arith":  {"json_arith", reprArith + " | tojson | fromjson | tovalue"},
+	"jqlit_arith": {"jqlit_arith", reprArith + " | to_jq | from_jq"},
+	"xml":         {"xml", "to_xml | from_xml({array: true}) | tovalue"},
+	"xmlobj":      {"xmlobj", "to_xml | from_xml | tovalue"},
 	// element ORDER through the object form: array-form tree -> text -> object form with #seq ->
 	// text -> array-form tree must be the original tree (children with interleaved repeated names)
 	"xmlseq":   {"xmlseq", "to_xml | from_xml({seq: true}) | tovalue | to_xml | from_xml({array: true}) | tovalue"},
@@ -215,6 +228,26 @@ func anyObject(v any, pred func(map[string]any) bool) bool {
 	return false
 }
 
+func anyBigOutside64(v any) bool {
+	switch v := v.(type) {
+	case *big.Int:
+		return !v.IsInt64()
+	case []any:
+		for _, e := range v {
+			if anyBigOutside64(e) {
+				return true
+			}
+		}
+	case map[string]any:
+		for _, e := range v {
+			if anyBigOutside64(e) {
+				return true
+			}
+		}
+	}
+	return false
+}
+
 func anyArray(v any, pred func([]any) bool) bool {
 	switch v := v.(type) {
 	case []any:
@@ -238,7 +271,7 @@ func anyArray(v any, pred func([]any) bool) bool {
 
 func knownLawFailure(name string, x any) string {
 	switch name {
-	case "yaml":
+	case "yaml", "yaml_arith", "yaml_lit":
 		// gopkg.in/yaml.v3 writes a multi-line string as a block scalar; when the string starts
 		// with a line feed, a space or U+2028/U+2029 the block scalar reads back without its first line feed,
 		// or (inside a sequence) does not parse at all
@@ -248,6 +281,16 @@ func knownLawFailure(name string, x any) string {
 		}) {
 			return "yaml-block-scalar-leading-blank"
 		}
+	}
+	switch name {
+	case "yaml", "toml", "yaml_arith", "toml_arith", "yaml_lit", "toml_lit":
+		// an integer outside the int64 range is a *big.Int, which yaml.v3 / BurntSushi/toml marshal
+		// through TextMarshaler as a quoted STRING: the number comes back as a string
+		if anyBigOutside64(x) {
+			return "serialiser-bigint-as-string"
+		}
+	}
+	switch strings.TrimSuffix(strings.TrimSuffix(name, "_arith"), "_lit") {
 	case "toml":
 		// BurntSushi/toml writes an array that holds a table as an array of tables and silently
 		// drops its non-table elements
@@ -581,6 +624,7 @@ func genLaws(cfg hlib.Config, r *hlib.Rand, o *hlib.Out, ev *evaluator) {
 
 	yg := &jsonGen{r: r, intBits: 63, strFn: printable, keyFn: printable}
 	tg := &jsonGen{r: r, intBits: 63, noNull: true, strFn: printable, keyFn: printable}
+	eg := &jsonGen{r: r, intBits: 100} // edge integers incl. those outside int64
 	jg := &jsonGen{r: r, intBits: 300}
 	sg := &jsonGen{r: r, strOnly: true}
 	for k := 0; k < n; k++ {
@@ -596,6 +640,29 @@ func genLaws(cfg hlib.Config, r *hlib.Rand, o *hlib.Out, ev *evaluator) {
 			if len(m) > 0 {
 				add("toml", m)
 				break
+			}
+		}
+		// arrays of tables nested in arrays of tables (depth <= 4), empty containers, keys that
+		// need quoting, integers at the edges of int32/2^53/int64/uint64 in both representations
+		{
+			yv := yg.aoo(r.Range(1, 4))
+			add("yaml", yv)
+			add("yaml_arith", parseWire(wireOf(yv)))
+			add("yaml_lit", parseWire(wireOf(yv)))
+			for {
+				tv := tg.aoo(r.Range(1, 4)).(map[string]any)
+				if len(tv) > 0 {
+					add("toml", tv)
+					add("toml_arith", parseWire(wireOf(tv)))
+					add("toml_lit", parseWire(wireOf(tv)))
+					break
+				}
+			}
+			n := eg.integer()
+			add("yaml", map[string]any{"a": n, "l": []any{n, map[string]any{"n": n}}})
+			add("toml", map[string]any{"a": n, "l": []any{map[string]any{"n": n, "t": []any{map[string]any{"m": n}}}}})
+			for _, nm := range []string{"yaml_arith", "toml_arith", "yaml_lit", "toml_lit", "json_arith", "jqlit_arith"} {
+				add(nm, map[string]any{"a": n, "l": []any{n}})
 			}
 		}
 		add("xml", xmlTree(r, r.Range(0, 3)))
@@ -622,6 +689,30 @@ func genLaws(cfg hlib.Config, r *hlib.Rand, o *hlib.Out, ev *evaluator) {
 				m[nm] = a
 			}
 			add("xmlobj", map[string]any{"r": m})
+			// nested object form: elements holding arrays of elements holding arrays of elements
+			var elt func(d int) any
+			elt = func(d int) any {
+				if d == 0 || r.Intn(3) == 0 {
+					return xmlText(r)
+				}
+				o := map[string]any{}
+				if r.Intn(3) == 0 {
+					o["@k"] = xmlText(r)
+				}
+				for _, nm := range []string{"a", "b", "c"}[:r.Range(1, 3)] {
+					if r.Bool() {
+						a := make([]any, r.Range(2, 4))
+						for i := range a {
+							a[i] = elt(d - 1)
+						}
+						o[nm] = a
+					} else {
+						o[nm] = elt(d - 1)
+					}
+				}
+				return o
+			}
+			add("xmlobj", map[string]any{"r": elt(r.Range(1, 4))})
 		}
 		if k%4 == 0 {
 			add("xml", xmlSeqTree(r, r.Range(1, 3), "r"))
@@ -669,7 +760,7 @@ func genLaws(cfg hlib.Config, r *hlib.Rand, o *hlib.Out, ev *evaluator) {
 	}
 	// the pinned interleaving <r><a>1</a><b>2</b><a>3</a><b>4</b></r>
 	add("xmlseq", parseWire("[s72,n,[[s61,{s2374657874:s31},[]],[s62,{s2374657874:s32},[]],[s61,{s2374657874:s33},[]],[s62,{s2374657874:s34},[]]]]"))
-	for _, name := range []string{"yaml", "toml", "xml", "xmlseq", "xmlobj", "jsonf"} {
+	for _, name := range []string{"yaml", "toml", "yaml_arith", "toml_arith", "yaml_lit", "toml_lit", "json_arith", "jqlit_arith", "xml", "xmlseq", "xmlobj", "jsonf"} {
 		runLaw(o, ev, name, batch[name])
 	}
 
